@@ -1,5 +1,7 @@
 //! One entry point per property.
 
+pub mod c12;
+pub mod c20;
 pub mod histprops;
 
 use crate::model::Class;
